@@ -87,9 +87,15 @@ IocShown(maskVariant, d, len, group, num) ==
   LET key == IF maskVariant = "f" THEN 2 * d + (len \div 4096) ELSE 2 * d      \* (request & mask) >> 28
   IN [ok |-> (key % 2 = 0) /\ DirDefined(key \div 2),                         \* else KeyError
       params |-> DirName(key \div 2), group |-> group, num |-> num, len |-> len]
+\* request NAMES a rendering may add (sys/filio.h): name -> <<direction, group 'f' = 102, number, length>>; a name that
+\* is in this table must be shown for exactly its own request (names outside the table are not judged)
+IocNames == [FIOCLEX |-> <<1, 102, 1, 0>>, FIONCLEX |-> <<1, 102, 2, 0>>, FIONREAD |-> <<2, 102, 127, 4>>,
+             FIONBIO |-> <<4, 102, 126, 4>>, FIOASYNC |-> <<4, 102, 125, 4>>, FIOSETOWN |-> <<4, 102, 124, 4>>,
+             FIOGETOWN |-> <<2, 102, 123, 4>>, FIODTYPE |-> <<2, 102, 122, 4>>]
 IocVerdict(d, len, group, num, sh) ==
   IF ~DirDefined(d) THEN "ok"
   ELSE IF ~sh.ok THEN "raised"
+  ELSE IF "name" \in DOMAIN sh /\ sh.name \in DOMAIN IocNames /\ IocNames[sh.name] # <<d, group, num, len>> THEN "request-name-not-darwin"
   ELSE IF sh.params # DirName(d) THEN "direction"
   ELSE IF sh.group # group THEN "group" ELSE IF sh.num # num THEN "number" ELSE IF sh.len # len THEN "length" ELSE "ok"
 =============================================================================
